@@ -1,11 +1,11 @@
 SPECIFICATION SpecPOR
 CONSTANTS
-  NConc = 3
+  NConc = 2
   NPost = 2
   BareSendPublishBatch = FALSE
   BareSendDiscover = FALSE
   UnbufferedSelRecvReply = FALSE
-  BareSendMsg = FALSE
+  BareSendMsg = TRUE
   BatchCap = 1
   DiscCap = 1
   SendCap = 1
